@@ -20,6 +20,25 @@ check('C10', 'exhaustive finite-domain enumeration (all n,k,relation x all 2^n a
       'extensions; bounded-exhaustive, no sampling.',
       'pycryptosat as SAT oracle (truth-table cross-check <=16 variables); bounds n<=6/9.', 'DESIGN.md section 4, C10')
 
+check('C11', 'exhaustive enumeration of all formula trees up to depth 2 x all assignments, on the real converters',
+      'All ~27k formula trees of depth<=2 over atoms {1,2,3,-1} (And/Or arity 0..2, If, Iff, Not; thorough adds arity-3 and a depth-3 '
+      'slice), two fresh-variable starts; Tseitin: every assignment has exactly one / no extension (all extensions enumerated) and new '
+      'variables lie in the reported fresh range; naive: structurally evaluated equivalent, no new variable; switching: exists-fresh equivalence.',
+      'pycryptosat as SAT oracle for extension enumeration; formula semantics as in module docstring.', 'DESIGN.md section 4, C11')
+
+check('C12', 'exhaustive enumeration of circuit parameters x all input assignments, all extensions enumerated',
+      'half/full/saturating adders, ripple_carry widths 1..4(5), ripple_saturate w<=s<=5(6), pop_count n<=8(11) x saturate_at 0..5(6): every input '
+      'assignment has exactly one satisfying extension and its output bits equal the (saturating) binary sum.',
+      'pycryptosat as SAT oracle (truth-table cross-check <=16 variables); saturating representation as derived from assert_k_of_n.',
+      'DESIGN.md section 4, C12')
+
+check('C13', 'exhaustive enumeration of parameter tuples x all indices; explicit-state search over shared-memo call histories',
+      'Every unranking function is run on every index 0..N-1 for all parameter tuples up to the bound and its image compared with the '
+      'itertools-generated arrangement set (bijection, count == counting function == brute force); BFS over histories of count/unrank calls on '
+      'one shared PermutationMemo (state = memo contents) checks every return against the fresh-memo value.',
+      'bounded parameters (n<=7/9 etc.); the "larger random tuples" part of the quantifier is sampling and is not claimed.',
+      'DESIGN.md section 4, C13')
+
 
 def build():
     props = [json.loads(l) for l in (ROOT / 'properties.jsonl').read_text().splitlines() if l.strip()]
